@@ -79,6 +79,11 @@ def SupEv.isTerminal : SupEv → Bool
   | .started _ => false
   | _ => true
 
+/-- `SupervisionEvent::clone_no_data`: what a monitor receives (the boxed state is not cloned). -/
+def SupEv.strip : SupEv → SupEv
+  | .terminated c _ r => .terminated c false r
+  | e => e
+
 def SupEv.who : SupEv → Nat
   | .started c => c | .terminated c _ _ => c | .failed c _ _ => c
 
@@ -87,6 +92,10 @@ inductive Fx
   | joinGroup (g : String)        -- `pg::join(g, [myself])`
   | reply (k v : Nat)             -- reply `v` on the held reply port of call `k`
   | forget (k : Nat)              -- drop the held reply port of call `k`
+  /-- spawn a child from inside the callback: `ActorRuntime::spawn_linked_instant(None, child, (), myself)`
+  (the instant form: no await inside the callback; the child's start task is polled like any instant
+  start). `c` is the slot the harness gives the child. -/
+  | spawnChild (c : Nat)
   deriving DecidableEq, Repr, Inhabited
 
 inductive Term | tick | ok | err (n : Nat) | panic (n : Nat)
@@ -104,6 +113,8 @@ inductive Item | msg (m : Nat) | drain | call (k : Nat)   -- `call k`: an RPC re
 /-- Where the actor's control flow is suspended. -/
 inductive Phase
   | fresh                 -- slot exists, nothing spawned
+  | cell                  -- `spawn_instant`: the cell was handed out (`Unstarted`, ports open, guard armed),
+                          -- the start task was spawned and has never been polled
   | pre                   -- spawn future suspended inside `pre_start`
   | ready                 -- loop task spawned, never polled
   | postStart             -- suspended inside `post_start`
@@ -128,6 +139,8 @@ inductive Arg | none | msg (m : Nat) | sup (e : SupEv) | call (k : Nat)
   deriving DecidableEq, Repr, Inhabited
 
 inductive SpawnRet | ok | killed | nolink | startup (isPanic : Bool) (n : Nat) | registered
+  | already      -- `SpawnErr::ActorAlreadyStarted` (the status was not `Unstarted` when `start` ran)
+  | joinPanic    -- the join handle of an instant start task reported a panic (never produced by the model)
   deriving DecidableEq, Repr, Inhabited
 
 inductive JoinRes | ok | cancelled | panic   -- `panic` is never produced by the model
@@ -145,7 +158,8 @@ inductive Fate | queued | held | replied (v : Nat) | dropped
 structure Snap where
   status : Status
   sup : Option Nat
-  inKids : Bool      -- it is in some actor's child set
+  inKids : Bool      -- it is in the child set of its supervisor
+  foreign : Bool := false   -- it is in the child set of an actor that is NOT its supervisor (never, in the model)
   nameHeld : Bool    -- the registry maps its name to it
   ngroups : Nat      -- number of process groups it is a member of
   deriving DecidableEq, Repr, Inhabited
@@ -165,12 +179,20 @@ inductive Ev
   | supArrive (e : SupEv)          -- `e` was handed to this actor's supervision port
   | supIs (p : Option Nat)         -- observed supervisor after the op (only when it changed)
   | isLocal                        -- the actor is a thread-local actor (first event of such an actor)
+  | instant                        -- `spawn_instant*` returned `Ok((actor_ref, start_handle))`
+  /-- feature `monitors`: `notify_supervisor` fanned `e` (a state-less copy) out to the monitors `tg`;
+  `reg` = the monitors registered at that instant (in the model's own trace `tg = reg`; in a trace derived
+  from the implementation `reg` comes from the harness's `monitor`/`unmonitor` ops, `tg` from the observed sends,
+  both sorted, `tg` with repetitions) -/
+  | monFan (reg tg : List Nat) (e : SupEv)
+  | treeKill                       -- a supervisor's `terminate()` killed me and my signal port accepted it
   | aborted                        -- `JoinHandle::abort` hit the live task
   | dropped                        -- the spawn future was dropped while alive
   | join (r : JoinRes)
   | fxJoin (g : String)            -- the callback called `pg::join`
   | fxReply (k v : Nat) (ok : Bool)   -- the callback replied on port `k` (`ok`: it held the port)
   | fxForget (k : Nat) (ok : Bool)
+  | fxSpawn (c : Nat) (loc : Bool)    -- the callback spawned child `c` (instant, linked to me at its start)
   | callRet (k : Nat) (r : CallRes)   -- what the caller of call `k` (addressed to this actor) sees
   | callSent (k : Nat) (ok : Bool)    -- the request of call `k` was sent: `ok` = accepted into the mailbox
   | polled                            -- the loop task was polled once (end of a `poll` op)
@@ -183,6 +205,8 @@ inductive Eff
   | cascade (kids : List Nat)   -- `terminate()`: these children were detached and are to be killed
   | link (p : Nat)              -- `SupervisionTree::link`: insert me into `p`'s child set
   | unlink (p : Nat)            -- `SupervisionTree::unlink`: remove me from `p`'s child set
+  | monSend (m : Nat) (e : SupEv)  -- feature `monitors`: hand the copy `e` to monitor `m`'s supervision port
+  | spawnChild (c : Nat) (isLocal : Bool)   -- a callback of mine spawned child `c` with `spawn_linked_instant`
   deriving DecidableEq, Repr, Inhabited
 
 inductive Out
@@ -198,6 +222,8 @@ structure Actor where
   wantSup : Option Nat := none
   /-- a `ThreadLocalActor` (`thread_local/inner.rs`): linked before `pre_start`, never reports its state -/
   isLocal : Bool := false
+  /-- spawned with `spawn_instant*`: `start()` runs inside a spawned task -/
+  instant : Bool := false
   /-- signal port: sender still in the cell / `Signal::Kill` in flight -/
   sigTx : Bool := true
   sigVal : Bool := false
@@ -216,6 +242,8 @@ structure Actor where
   /-- `SupervisionTree`: my supervisor, my child set (`none` = permanently closed) -/
   sup : Option Nat := none
   kids : Option (List Nat) := some []
+  /-- feature `monitors`: the actors monitoring me (`SupervisionTree::monitors`), ascending, no repetition -/
+  mons : List Nat := []
   /-- registry: my name, and whether the registry maps it to me; process groups I am a member of -/
   name : Option String := none
   nameHeld : Bool := false
@@ -292,7 +320,9 @@ def apiKill (a : Actor) : Actor × Bool :=
 /-- `drain`: close admission, `Draining` unless already `>= Stopping`, `send_drain_marker`. -/
 def apiDrain (a : Actor) : Actor × Bool :=
   let a1 : Actor := { a with admClosed := true,
-                             status := if a.status.rank < Status.stopping.rank then .draining else a.status }
+                             -- (repo fix e926850: an `Unstarted` cell of `spawn_instant` stays `Unstarted`)
+                             status := if a.status = .unstarted then a.status
+                                       else if a.status.rank < Status.stopping.rank then .draining else a.status }
   if a1.markerSent then (a1, true)
   else if !a1.portsOpen then ({ a1 with markerSent := true }, false)
   else ({ a1 with markerSent := true, msgQ := a1.msgQ ++ [.drain],
@@ -310,6 +340,22 @@ taken and closed, the children are killed. -/
 def handleSignal (a : Actor) : M :=
   ({ a with kids := none }, [.eff (.cascade (a.kids.getD []))])
 
+/-- Insert into an ascending list without repetition. -/
+def insertAsc (m : Nat) : List Nat → List Nat
+  | [] => [m]
+  | x :: l => if m < x then m :: x :: l else if m = x then x :: l else x :: insertAsc m l
+
+/-- `SupervisionTree::notify_supervisor(e)`: with the `monitors` feature a state-less copy goes to every
+monitor first (one `monFan` trace event, one `monSend` effect per monitor), then the event itself goes to
+the supervisor. Without monitors (always so without the feature) this is the supervisor send alone. -/
+def notifyOuts (a : Actor) (e : SupEv) : List Out :=
+  (match a.mons with
+    | [] => []
+    | m :: ms => .ev (.monFan (m :: ms) (m :: ms) e.strip) :: (m :: ms).map (fun x => .eff (.monSend x e.strip)))
+  ++ (match a.sup with
+    | some p => [.ev (.emit p e)]
+    | none => [])
+
 /-- `ActorLifecycleGuard::cleanup(event)`. -/
 def cleanup (a : Actor) (e : Option SupEv) : M :=
   if !a.armed then (a, [])
@@ -317,9 +363,9 @@ def cleanup (a : Actor) (e : Option SupEv) : M :=
     let a1 := a.setStatus .stopping
     let o1 : List Out := [.eff (.cascade (a1.kids.getD []))]
     let a2 : Actor := { a1 with kids := none }
-    let o2 : List Out := match e, a2.sup with
-      | some e, some p => [.ev (.emit p e)]
-      | _, _ => []
+    let o2 : List Out := match e with
+      | some e => notifyOuts a2 e
+      | none => []
     let o3 : List Out := match a2.sup with
       | some p => [.eff (.unlink p)]
       | none => []
@@ -383,10 +429,7 @@ def afterExit (a : Actor) (r : Res) : M :=
   match a.phase, r with
   | .postStart, .ok =>
     let a := a.setStatus .running
-    let o : List Out := match a.sup with
-      | some p => [.ev (.emit p (.started a.id))]
-      | none => []
-    andThen (a, o) listen
+    andThen (a, notifyOuts a (.started a.id)) listen
   | .inMsg, .ok => listen a
   | .inSup, .ok => listen a
   | .postStop rs, .ok =>
@@ -395,6 +438,14 @@ def afterExit (a : Actor) (r : Res) : M :=
   | .postStart, r => finish a (failedEv a r)
   | .postStop _, r => finish a (failedEv a r)
   | _, r => finish (a.setStatus .stopping) (failedEv a r)
+
+/-- `SupervisionTree::link(me, p)` once its preconditions hold: insert me into `p`'s child set, make
+`p` my supervisor and remove me from the previous supervisor's child set. -/
+def doLink (a : Actor) (p : Nat) : M :=
+  ({ a with sup := some p },
+   .eff (.link p) :: (match a.sup with
+     | some q => if q = p then [] else [.eff (.unlink q)]
+     | none => []))
 
 /-- What follows the return of `pre_start` (`supOk`: the requested supervisor accepts a link:
 its status is below `Draining` and its child set is not closed). -/
@@ -405,9 +456,12 @@ def afterPre (a : Actor) (supOk : Bool) (r : Res) : M :=
   | .ok =>
     match (if a.isLocal then none else a.wantSup) with   -- a thread-local actor was linked by `opSpawn`
     | some p =>
+      -- `try_link_starting` (repo fix ee38a9c): the child is refused only when it is already `>= Stopping`;
+      -- a `drain()` during `pre_start` (status `Draining`) no longer fails the start — the actor is linked,
+      -- runs its loop, handles its backlog and exits "Drained"
       if Status.stopping.rank ≤ a.status.rank || !supOk then failSpawn a .nolink
-      else ({ a with sup := some p, notifyOnCancel := true, phase := .ready, woken := true },
-            [.eff (.link p), .ev (.spawnRet .ok)])
+      else andThen (doLink a p) fun a =>
+        ({ a with notifyOnCancel := true, phase := .ready, woken := true }, [.ev (.spawnRet .ok)])
     | none => ({ a with notifyOnCancel := true, phase := .ready, woken := true }, [.ev (.spawnRet .ok)])
 
 def runFx (a : Actor) : Fx → M
@@ -424,6 +478,7 @@ def runFx (a : Actor) : Fx → M
   | .forget k =>
     if fateOf a.calls k = some .held then ({ a with calls := setFate a.calls k .dropped }, [.ev (.fxForget k true)])
     else (a, [.ev (.fxForget k false)])
+  | .spawnChild c => (a, [.ev (.fxSpawn c a.isLocal), .eff (.spawnChild c a.isLocal)])
 
 def runFxs (a : Actor) : List Fx → M
   | [] => (a, [])
@@ -446,8 +501,14 @@ inductive AOp
   /-- nameFree: the registry has no such name; isLocal: `ThreadLocalActor::spawn*`; supOk: the
   requested supervisor accepts a link right now (only consulted for thread-local actors) -/
   | spawn (sup : Option Nat) (name : Option String) (nameFree : Bool) (isLocal : Bool) (supOk : Bool)
+  /-- `spawn_instant` / `spawn_linked_instant` (Send and thread-local): `new()` only -/
+  | spawnInstant (sup : Option Nat) (name : Option String) (nameFree : Bool) (isLocal : Bool)
   | pollSpawn (supOk : Bool)
   | dropSpawn
+  /-- the public `ActorCell::link(p)` (`supOk`: `p` is below `Draining` and its child set is open) -/
+  | link (p : Nat) (supOk : Bool)
+  /-- the public `ActorCell::unlink(p)` -/
+  | unlink (p : Nat)
   | poll
   | abort
   | resume (s : Seg)
@@ -459,6 +520,9 @@ inductive AOp
   | treeTaken                    -- environment: my supervisor's `terminate()` reached me
   | kidAdd (c : Nat)             -- environment: `c` linked itself to me
   | kidDel (c : Nat)             -- environment: `c` unlinked itself
+  | monAdd (m : Nat)             -- feature `monitors`: `m.monitor(me)`
+  | monDel (m : Nat)             -- feature `monitors`: `m.unmonitor(me)`
+  | monDrop (m : Nat)            -- feature `monitors`: a send to the dead monitor `m` failed: it is removed
   | call (k : Nat)               -- `actor.call(..)` first poll: the request is sent
   | pollCall (k : Nat)           -- the caller polls its call future
   | pollWait (w : Nat)           -- somebody polls a `wait()` on this actor
@@ -491,8 +555,51 @@ def opSpawn (a : Actor) (sup : Option Nat) (name : Option String) (nameFree : Bo
           [.ev (.enter .preStart .none)])
   | _ => (a, [.note "respawn"])
 
+/-- `spawn_instant*`: `new()` (cell, ports, armed guard) and nothing else; the `ActorRef` is handed out
+while the status is `Unstarted`, `start()` will run in a spawned task. -/
+def opSpawnInstant (a : Actor) (sup : Option Nat) (name : Option String) (nameFree : Bool)
+    (isLocal : Bool) : M :=
+  match a.phase with
+  | .fresh =>
+    if name.isSome && !nameFree then (a, [.ev (.spawnRet .registered)])
+    else if isLocal then
+      ({ a with phase := .cell, instant := true, armed := true, wantSup := sup, isLocal := true,
+                name := name, nameHeld := name.isSome }, [.ev .isLocal, .ev .instant])
+    else
+      ({ a with phase := .cell, instant := true, armed := true, wantSup := sup,
+                name := name, nameHeld := name.isSome }, [.ev .instant])
+  | _ => (a, [.note "respawn"])
+
+/-- `run_with_signal(pre_start)` polled for the first time by an instant start task: the signal port
+is polled first, so a kill that arrived while the cell was `Unstarted` wins and `pre_start` is never
+entered (its future is dropped unpolled: no `cancelled` either). -/
+def beginPre (a : Actor) : M :=
+  if a.sigVal then
+    andThen (handleSignal { a with sigVal := false }) fun a => failSpawn a .killed
+  else ({ a with phase := .pre }, [.ev (.enter .preStart .none)])
+
+/-- First poll of the start task of an instant spawn: `start()` from its first statement, beginning
+with the "cannot start an actor more than once" test (`status != Unstarted` ⇒ `Err(ActorAlreadyStarted)`).
+That branch is dead: nothing writes the status of a cell that has not been started (`drain` leaves an
+`Unstarted` cell `Unstarted`, repo fix e926850) — `Lemmas/LifeCell.lean` proves `phase = cell → status =
+Unstarted` for every reachable state, and the automaton clause `c04.instant-start-refused` (part of
+`C04.reported_once`) rejects a trace with `Err(already)`. -/
+def startInstant (a : Actor) (supOk : Bool) : M :=
+  if a.status ≠ .unstarted then failSpawn a .already
+  else
+  let a : Actor := { a with status := .starting }
+  if a.isLocal then
+    -- thread_local/inner.rs: the link is made synchronously, then the builder is shipped
+    match a.wantSup with
+    | some p =>
+      if !supOk then failSpawn a .nolink
+      else andThen (doLink a p) beginPre
+    | none => beginPre a
+  else beginPre a
+
 def opPollSpawn (a : Actor) (supOk : Bool) : M :=
   match a.phase with
+  | .cell => startInstant a supOk
   | .pre =>
     if a.sigVal then
       andThen (say { a with sigVal := false } (.cancelled .preStart)) fun a =>
@@ -505,8 +612,12 @@ def opPollSpawn (a : Actor) (supOk : Bool) : M :=
 
 def opDropSpawn (a : Actor) : M :=
   match a.phase with
+  | .cell =>
+    -- the start task is aborted before its first poll: its captures (guard, ports) are dropped
+    andThen (a, [.ev .dropped, .note "sjoin Cancelled"]) fun a =>
+    andThen (cleanup a none) fun a => (a.dropPorts, [])
   | .pre =>
-    andThen (a, [.ev .dropped, .ev (.cancelled .preStart)]) fun a =>
+    andThen (a, [.ev .dropped, .ev (.cancelled .preStart)] ++ (if a.instant then [.note "sjoin Cancelled"] else [])) fun a =>
     andThen (cleanup a none) fun a => (a.dropPorts, [])
   | _ => (a, [.note "nospawn"])
 
@@ -567,8 +678,20 @@ I am in its child set only while it is my supervisor, `SupervisionTree::link`), 
 kills me if my status is `< Stopping` (repo fix a9fecd6; it was `<= Upgrading`) and takes *my* children. -/
 def opTreeTaken (a : Actor) : M :=
   let a1 : Actor := { a with sup := none }
-  let a2 : Actor := if a1.status.rank < Status.stopping.rank then (apiKill a1).1 else a1
-  ({ a2 with kids := none }, [.eff (.cascade (a2.kids.getD []))])
+  if a1.status.rank < Status.stopping.rank then
+    ({ (apiKill a1).1 with kids := none },
+     (if (apiKill a1).2 then [.ev .treeKill] else []) ++ [.eff (.cascade ((apiKill a1).1.kids.getD []))])
+  else ({ a1 with kids := none }, [.eff (.cascade (a1.kids.getD []))])
+
+/-- The public `ActorCell::link(p)` = `SupervisionTree::link(me, p)`: refused when either side is
+`>= Draining` or `p`'s child set is closed. -/
+def opLink (a : Actor) (p : Nat) (supOk : Bool) : M :=
+  if Status.draining.rank ≤ a.status.rank || !supOk then (a, [])
+  else doLink a p
+
+/-- The public `ActorCell::unlink(p)`: only if `p` is my current supervisor. -/
+def opUnlink (a : Actor) (p : Nat) : M :=
+  if a.sup = some p then ({ a with sup := none }, [.eff (.unlink p)]) else (a, [])
 
 /-- API calls and environment ops on an existing cell. -/
 def Actor.envOp (a : Actor) : AOp → M
@@ -578,8 +701,13 @@ def Actor.envOp (a : Actor) : AOp → M
   | .drain => ((apiDrain a).1, [.ev (.drainRet (apiDrain a).2)])
   | .supArrive e => opSupArrive a e
   | .treeTaken => opTreeTaken a
+  | .link p supOk => opLink a p supOk
+  | .unlink p => opUnlink a p
   | .kidAdd c => ({ a with kids := a.kids.map (fun l => if l.contains c then l else l ++ [c]) }, [])
   | .kidDel c => ({ a with kids := a.kids.map (fun l => l.filter (· != c)) }, [])
+  | .monAdd m => ({ a with mons := insertAsc m a.mons }, [])
+  | .monDel m => ({ a with mons := a.mons.filter (· != m) }, [])
+  | .monDrop m => ({ a with mons := a.mons.filter (· != m) }, [.note s!"mondrop {m}"])
   | .call k => ((apiCall a k).1, [.ev (.callSent k (apiCall a k).2),
                                   .ev (.callRet k (if (apiCall a k).2 then .pending else .sendErr))])
   | .pollCall k =>
@@ -597,6 +725,7 @@ def pollMark (a : Actor) (x : M) : M := if a.phase.isTask then (x.1, x.2 ++ [.ev
 
 def Actor.stepCore (a : Actor) : AOp → M
   | .spawn sup name nameFree isLocal supOk => opSpawn a sup name nameFree isLocal supOk
+  | .spawnInstant sup name nameFree isLocal => opSpawnInstant a sup name nameFree isLocal
   | .pollSpawn supOk => opPollSpawn a supOk
   | .dropSpawn => opDropSpawn a
   | .poll => pollMark a (opPoll a)
@@ -687,6 +816,17 @@ def World.effects (fuel : Nat) (w : World) (outs : List WOut) : World × List WO
         | .eff (.cascade kids) => World.cascade fuel w kids
         | .eff (.link p) => w.apply p (.kidAdd src)
         | .eff (.unlink p) => w.apply p (.kidDel src)
+        | .eff (.spawnChild c loc) =>
+          -- the cell of the child: `new()` only; it asks for `src` as its supervisor at its start
+          let w1 : World := if c = w.actors.length then { w with actors := w.actors ++ [Actor.init c] } else w
+          w1.apply c (.spawnInstant (some src) none true loc)
+        | .eff (.monSend m e) =>
+          -- best effort: a monitor whose port is gone is removed from the monitor set
+          let r1 := w.apply m (.supArrive e)
+          if (w.get m).portsOpen then r1
+          else
+            let r2 := r1.1.apply src (.monDrop m)
+            (r2.1, r1.2 ++ r2.2)
         | _ => (w, [])
       let r' := World.effects fuel r.1 rest
       (r'.1, r.2 ++ r'.2)
@@ -695,6 +835,11 @@ end
 inductive Op
   | case
   | spawn (a : Nat) (sup : Option Nat) (name : Option String) (isLocal : Bool)
+  | spawnInstant (a : Nat) (sup : Option Nat) (name : Option String) (isLocal : Bool)
+  | link (a : Nat) (p : Nat)
+  | unlink (a : Nat) (p : Nat)
+  | monitor (m : Nat) (a : Nat)      -- feature `monitors`: `m.monitor(a)`
+  | unmonitor (m : Nat) (a : Nat)
   | pollSpawn (a : Nat)
   | dropSpawn (a : Nat)
   | poll (a : Nat)
@@ -722,11 +867,55 @@ def World.supOkOf (w : World) (sup : Option Nat) : Bool :=
   | some p => decide ((w.get p).status.rank < Status.draining.rank) && (w.get p).kids.isSome
   | none => true
 
-def World.supOk (w : World) (a : Nat) : Bool := w.supOkOf (w.get a).wantSup
+/-- `target` is `x` or one of its ancestors (walk up the supervisor chain; `fuel` ≥ number of actors). -/
+def World.above (w : World) (fuel : Nat) (x target : Nat) : Bool :=
+  match fuel with
+  | 0 => false
+  | fuel + 1 =>
+    if x = target then true
+    else match (w.get x).sup with
+      | some q => w.above fuel q target
+      | none => false
+
+/-- `SupervisionTree::link(a, p)` is possible on `p`'s side. The code does NOT refuse a link that closes a
+supervision cycle (`p` is `a` or a descendant of `a`): see `World.closesCycle` and known finding F15. -/
+def World.supOkFor (w : World) (_a p : Nat) : Bool := w.supOkOf (some p)
+
+/-- Linking `a` under `p` would close a supervision cycle. -/
+def World.closesCycle (w : World) (a p : Nat) : Bool := w.above (w.actors.length + 1) p a
+
+/-- `a` is on a supervision cycle (its supervisor chain comes back to it). In that configuration the
+code's `terminate()` of the exiting `a` walks back to `a` and clears its supervisor before
+`notify_supervisor`, so `a`'s terminal event is NOT sent (F15, `c04.missing-terminal-in-cycle`); the
+model's `cleanup` does send it — the model is claimed to describe the code on acyclic runs only. -/
+def World.onCycle (w : World) (a : Nat) : Bool :=
+  match (w.get a).sup with
+  | some p => w.above (w.actors.length + 1) p a
+  | none => false
+
+/-- The harness op closes a supervision cycle (a public `link`, or the link a start is going to make). -/
+def Op.closesCycle (w : World) : Op → Bool
+  | .link a p => w.closesCycle a p
+  | .pollSpawn a =>
+    match (w.get a).wantSup with
+    | some p => (w.get a).sup != some p && w.closesCycle a p
+    | none => false
+  | _ => false
+
+def World.supOk (w : World) (a : Nat) : Bool :=
+  match (w.get a).wantSup with
+  | some p => w.supOkFor a p
+  | none => true
 
 def Op.target (w : World) : Op → Option (Nat × AOp)
   | .case => none
-  | .spawn a sup name loc => some (a, .spawn sup name (w.nameFree name) loc (w.supOkOf sup))
+  | .spawn a sup name loc => some (a, .spawn sup name (w.nameFree name) loc
+      (match sup with | some p => w.supOkFor a p | none => true))
+  | .spawnInstant a sup name loc => some (a, .spawnInstant sup name (w.nameFree name) loc)
+  | .link a p => some (a, .link p (w.supOkFor a p))
+  | .unlink a p => some (a, .unlink p)
+  | .monitor m a => some (a, .monAdd m)
+  | .unmonitor m a => some (a, .monDel m)
   | .pollSpawn a => some (a, .pollSpawn (w.supOk a))
   | .dropSpawn a => some (a, .dropSpawn)
   | .poll a => some (a, .poll)
@@ -770,6 +959,61 @@ def World.step (w : World) (op : Op) : World × List WOut × List WOut :=
       let fuel := 4 * (w.actors.length + 1) * (r.2.length + 1) + 8
       let r' := World.effects fuel r.1 r.2
       (r'.1.tables op r.2, r.2, r'.2)
+
+/-! ### fuel sufficiency of `World.effects`, as a computed predicate (evaluated by the driver on every
+replayed step: `model-fuel-exhausted`; `Lemmas/LifeDelivery.lean` proves delivery under it) -/
+
+mutual
+def World.cascadeDone (fuel : Nat) (w : World) (kids : List Nat) : Bool :=
+  match fuel with
+  | 0 => kids.isEmpty
+  | fuel + 1 =>
+    match kids with
+    | [] => true
+    | c :: cs =>
+      let r1 := w.apply c .treeTaken
+      let r2 := World.effects fuel r1.1 r1.2
+      World.effectsDone fuel r1.1 r1.2 && World.cascadeDone fuel r2.1 cs
+
+def World.effectsDone (fuel : Nat) (w : World) (outs : List WOut) : Bool :=
+  match fuel with
+  | 0 => outs.isEmpty
+  | fuel + 1 =>
+    match outs with
+    | [] => true
+    | (src, o) :: rest =>
+      let r := match o with
+        | .ev (.emit p e) => w.apply p (.supArrive e)
+        | .eff (.cascade kids) => World.cascade fuel w kids
+        | .eff (.link p) => w.apply p (.kidAdd src)
+        | .eff (.unlink p) => w.apply p (.kidDel src)
+        | .eff (.spawnChild c loc) =>
+          let w1 : World := if c = w.actors.length then { w with actors := w.actors ++ [Actor.init c] } else w
+          w1.apply c (.spawnInstant (some src) none true loc)
+        | .eff (.monSend m e) =>
+          let r1 := w.apply m (.supArrive e)
+          if (w.get m).portsOpen then r1
+          else
+            let r2 := r1.1.apply src (.monDrop m)
+            (r2.1, r1.2 ++ r2.2)
+        | _ => (w, [])
+      (match o with
+        | .eff (.cascade kids) => World.cascadeDone fuel w kids
+        | _ => true) && World.effectsDone fuel r.1 rest
+end
+
+/-- The fuel `World.step` gives to the effects of one op sufficed. -/
+def World.stepDone (w : World) (op : Op) : Bool :=
+  match op with
+  | .case => true
+  | _ =>
+    match op.target w with
+    | none => true
+    | some (a, aop) =>
+      let w : World := if a = w.actors.length then { w with actors := w.actors ++ [Actor.init a] } else w
+      let r := w.apply a aop
+      let fuel := 4 * (w.actors.length + 1) * (r.2.length + 1) + 8
+      World.effectsDone fuel r.1 r.2
 
 /-- A run of the composed world: all outputs (the target's own, then those of the actors its
 effects reached), tagged by actor, in order. -/
@@ -838,6 +1082,11 @@ def isHandler : Cb → Bool
   | .handle | .sup => true
   | _ => false
 
+/-- A callback is open. -/
+def Stage.isOpen : Stage → Bool
+  | .preOpen | .psOpen | .hOpen _ | .stopOpen => true
+  | _ => false
+
 /-- The lifecycle automaton. -/
 def next (s : St) : Ev → Except String St
   | .enter cb _ =>
@@ -874,6 +1123,18 @@ def next (s : St) : Ev → Except String St
   | .stopRet _ _ true => .ok { s with stopReq := true }
   | .drainRet true => .ok { s with stopReq := true }
   | .killRet _ true => .ok { s with killed := true }
+  | .treeKill => .ok { s with killed := true }     -- a supervisor's `terminate()` is an accepted kill too
+  -- the end of the actor's task / of its start-up ends the lifecycle: no callback may follow
+  -- (an open callback is first `cancelled`, which ends the lifecycle itself)
+  | .aborted => .ok (if s.stage.isOpen then s else { s with stage := .dead })
+  | .dropped => .ok (if s.stage.isOpen then s else { s with stage := .dead })
+  | .join _ => .ok { s with stage := .dead }
+  | .spawnRet r =>
+    match r with
+    | .ok | .registered => .ok s
+    -- (a thread-local spawn whose link is refused fails before a cell is visible: the slot is untouched)
+    | .nolink => .ok (if s.stage = .init then s else { s with stage := .dead })
+    | _ => .ok { s with stage := .dead }
   | _ => .ok s
 
 def ok (tr : List Ev) : Bool := (accepts next {} tr).isOk
@@ -883,12 +1144,17 @@ end C01
 namespace C03
 
 structure St where
-  /-- a kill found the signal port open -/
+  /-- a kill (API, self, or a supervisor's `terminate()`) found the signal port open -/
   killed : Bool := false
   /-- a stop found the stop port open -/
   stopAcc : Bool := false
   /-- supervision events handed to the port and not yet handled -/
   supPending : Nat := 0
+  /-- the task / the spawn future was aborted or dropped -/
+  aborted : Bool := false
+  /-- the open callback killed its own actor in the segment that is executing: that segment may still
+  return (the `exit` of the same poll), nothing else may happen -/
+  grace : Bool := false
   deriving DecidableEq, Repr, Inhabited
 
 def next (s : St) : Ev → Except String St
@@ -905,9 +1171,21 @@ def next (s : St) : Ev → Except String St
         else .ok { s with supPending := s.supPending - 1 }
       | _ => .ok s
   | .tick _ => if s.killed then .error "c03.progress-after-kill" else .ok s
-  | .killRet _ true => .ok { s with killed := true }
+  -- kill is immediate: after an accepted kill the open callback does not even return, except that the
+  -- segment which killed its own actor runs to its end
+  | .exit _ _ => if s.killed && !s.grace then .error "c03.exit-after-kill" else .ok { s with grace := false }
+  -- stop is graceful: a callback is cancelled only by a kill or by an abort of the task / start-up —
+  -- never by a stop; after an accepted stop the open handler runs to its end
+  | .cancelled _ =>
+    if s.killed || s.aborted then .ok s
+    else if s.stopAcc then .error "c03.stop-cancelled-callback"
+    else .error "c03.cancelled-without-kill"
+  | .killRet self true => .ok { s with killed := true, grace := s.grace || self }
+  | .treeKill => .ok { s with killed := true }
   | .stopRet _ _ true => .ok { s with stopAcc := true }
   | .supArrive _ => .ok { s with supPending := s.supPending + 1 }
+  | .aborted => .ok { s with aborted := true }
+  | .dropped => .ok { s with aborted := true }
   | _ => .ok s
 
 def ok (tr : List Ev) : Bool := (accepts next {} tr).isOk
@@ -933,7 +1211,20 @@ structure St where
   drainReq : Bool := false
   /-- a thread-local actor: its state is not `Send` and is never reported -/
   isLocal : Bool := false
+  /-- `post_start` returned ok while the actor was supervised: `ActorStarted` is due before anything else -/
+  mustStart : Bool := false
+  /-- the exit request the loop consumed when it entered `post_stop`: the accepted stop (the stop port
+  outranks the mailbox, so a stop accepted before wins over a drain marker), else the drain marker -/
+  took : Option Reason := none
+  /-- feature `monitors`: the terminal event the monitors got -/
+  fanTerminal : Option SupEv := none
   deriving DecidableEq, Repr, Inhabited
+
+/-- The request that `enter post_stop` consumes, given what was accepted so far. -/
+def tookOf (s : St) : Option Reason :=
+  match s.stopReason with
+  | some r => some r
+  | none => some .drained
 
 /-- Is the terminal event `e` the right one for what the trace shows? -/
 def classify (s : St) : SupEv → Except String Unit
@@ -950,7 +1241,8 @@ def classify (s : St) : SupEv → Except String Unit
     | r =>
       if !s.postStopOk then .error "c04.terminated-without-post_stop"
       else if hasState == s.isLocal then .error "c04.graceful-state"   -- state iff not thread-local
-      else if s.stopReason = some r || (r = .drained && s.drainReq) then .ok ()
+      -- the reason is the one of the request the loop took (also when both a stop and a drain were requested)
+      else if s.took = some r then .ok ()
       else .error "c04.reason"
 
 def next (me : Nat) (s : St) : Ev → Except String St
@@ -960,18 +1252,36 @@ def next (me : Nat) (s : St) : Ev → Except String St
     else if s.preFailed then .error "c04.event-after-pre_start-failure"
     else if s.terminalEmitted then .error "c04.after-terminal"
     else if e.isTerminal then
-      match classify s e with
+      if s.mustStart then .error "c04.missing-started"      -- `ActorStarted` was due first
+      -- the monitors (if any) got the same event: same constructor, same text / reason
+      else if s.fanTerminal.isSome && s.fanTerminal != some e.strip then .error "c04.monitor-event-differs"
+      else match classify s e with
       | .ok () => .ok { s with terminalEmitted := true }
       | .error c => .error c
     else if s.startedEmitted then .error "c04.started-twice"
     else if !s.startable then .error "c04.started-not-after-post_start"
-    else .ok { s with startedEmitted := true, startable := false }
-  | .enter _ _ => .ok { s with startable := false }
+    else .ok { s with startedEmitted := true, startable := false, mustStart := false }
+  -- feature `monitors`: every monitor registered at that instant gets the event, exactly once, without
+  -- state; nobody else; at most one terminal event; `ActorStarted` only right after `post_start` returned ok
+  | .monFan reg tg e =>
+    if e.who ≠ me then .error "c04.who"
+    else if tg ≠ reg then .error "c04.monitor-set"
+    else if e.strip ≠ e then .error "c04.monitor-state"
+    else if s.preFailed then .error "c04.event-after-pre_start-failure"
+    else if s.terminalEmitted || s.fanTerminal.isSome then .error "c04.after-terminal"
+    else if e.isTerminal then .ok { s with fanTerminal := some e }
+    else if !s.startable then .error "c04.started-not-after-post_start"
+    else .ok s
+  | .enter cb _ =>
+    -- positive form: a supervised actor whose `post_start` returned ok reports `ActorStarted`
+    -- before any further callback
+    if s.mustStart then .error "c04.missing-started"
+    else .ok { s with startable := false, took := if cb = .postStop then tookOf s else s.took }
   | .exit cb r =>
     match cb, r with
     | .preStart, .ok => .ok s
     | .preStart, _ => .ok { s with preFailed := true }
-    | .postStart, .ok => .ok { s with startable := true }
+    | .postStart, .ok => .ok { s with startable := true, mustStart := s.sup.isSome }
     | .postStop, .ok => .ok { s with postStopOk := true }
     | _, .ok => .ok s
     | _, .err n => .ok { s with fail := some (false, n) }
@@ -981,10 +1291,17 @@ def next (me : Nat) (s : St) : Ev → Except String St
   | .aborted => .ok { s with aborted := true }
   | .isLocal => .ok { s with isLocal := true }
   | .killRet _ true => .ok { s with killed := true }
+  | .treeKill => .ok { s with killed := true }
   | .stopRet _ r true => .ok { s with stopReason := some r }
   | .drainRet true => .ok { s with drainReq := true }
   | .supIs p => .ok { s with sup := p }
   | .spawnRet .ok => if s.preFailed then .error "c04.spawn-ok-after-failure" else .ok s
+  -- a cell handed out by `spawn_instant` is always started: nothing an `ActorRef` holder can do
+  -- while it is `Unstarted` (send, stop, drain, link, …) makes `start()` refuse to run
+  | .spawnRet .already => .error "c04.instant-start-refused"
+  | .spawnRet .joinPanic => .error "c04.start-join-panic"   -- the start task must complete normally
+  -- a kill that wins against `pre_start` (possibly before it was entered): silent for ever
+  | .spawnRet .killed => .ok { s with preFailed := true }
   | .join .ok =>
     -- the task ended by itself: a supervised actor must have reported its end
     if s.sup.isSome && !s.terminalEmitted then .error "c04.missing-terminal" else .ok s
@@ -992,6 +1309,12 @@ def next (me : Nat) (s : St) : Ev → Except String St
     if !s.aborted then .error "c04.join-cancelled"
     else if s.sup.isSome && !s.terminalEmitted then .error "c04.missing-terminal" else .ok s
   | .join .panic => .error "c04.join-panic"   -- the join handle must complete normally
+  -- the link transaction: an actor is in its supervisor's child set and in nobody else's (at every op
+  -- boundary: after `link`/`unlink`, a spawn, a supervisor's `terminate()`, its own exit)
+  | .snap sn =>
+    if sn.foreign then .error "c04.in-foreign-child-set"
+    else if sn.inKids != sn.sup.isSome then .error "c04.child-set-mismatch"
+    else .ok s
   | _ => .ok s
 
 /-- The property as stated. -/
@@ -1046,6 +1369,7 @@ def next (s : St) : Ev → Except String St
     | .registered => .ok s
     | _ => .ok { s with idle := false, over := s.over || s.entered }
   | .polled => if s.idle && !s.queue.isEmpty then .error "c02.accepted-not-handled" else .ok s
+  | .instant => .ok { s with entered := true }   -- `spawn_instant`: the mailbox exists from now on
   | _ => .ok s
 
 def ok (tr : List Ev) : Bool := (accepts next {} tr).isOk
@@ -1102,6 +1426,7 @@ def next (s : St) : Ev → Except String St
   | .tick _ => if s.failed then .error "residue.callback-after-failed-spawn" else .ok s
   | .exit _ _ => if s.failed then .error "residue.callback-after-failed-spawn" else .ok s
   | .emit _ _ => if s.failed then .error "residue.supervision-event" else .ok s
+  | .monFan _ _ _ => if s.failed then .error "residue.supervision-event" else .ok s
   | .snap sn =>
     if s.failed then
       match clean sn with
